@@ -34,12 +34,30 @@ PROP = 'C11'
 POOL = ['x', 'y', 'z', 'p1', 'b']
 
 
+class InheritedBuf(Buf):
+    """a user block that inherits propagate() from a library primitive without redefining it"""
+    pass
+
+
+class InheritedReg(py4hw.Reg):
+    """a user block that inherits clock() from a library primitive"""
+    pass
+
+
+DRIVERS = {'Buf': Buf, 'a subclass inheriting propagate()': InheritedBuf, 'a subclass inheriting clock()': InheritedReg}
+DRV = {'cls': Buf}
+
+
+def mkbuf(parent, name, a, r):
+    return DRV['cls'](parent, name, a, r)
+
+
 def template(kind):
     s = py4hw.HWSystem()
     x, y = s.wire('x', 2), s.wire('y', 2)
     box = D.Box(s, 'b', {}, {}, lambda bx: None)
     bx = box.wire('x', 2)
-    p1 = Buf(s, 'p1', x, y)
+    p1 = mkbuf(s, 'p1', x, y)
     extra = {}
     if kind == 'two-level':
         inner = D.Box(box, 'p1', {}, {}, lambda b2: None)
@@ -96,7 +114,7 @@ def run_op(m, s, box, x, y, o, par, name, w, k):
                 expect = name in m.children[pk]
                 fresh = s.wire('fresh_target_%d' % k, 2)
                 m.wires['sys']['fresh_target_%d' % k] = fresh
-                c = Buf(parent, name, x, fresh)
+                c = mkbuf(parent, name, x, fresh)
                 upd = lambda: (m.children[pk].__setitem__(name, c), m.driven.add(id(fresh)))
             elif o == 2:
                 if par == 0:
@@ -107,7 +125,7 @@ def run_op(m, s, box, x, y, o, par, name, w, k):
                 what = 'Buf(sys, "drv%d", x, %s)' % (k, tgt.name)
                 expect = id(tgt) in m.driven
                 m.children['sys']['drv%d' % k] = None          # the child name is taken even when the driver is refused
-                Buf(s, 'drv%d' % k, x, tgt)
+                mkbuf(s, 'drv%d' % k, x, tgt)
                 upd = lambda: m.driven.add(id(tgt))
             elif o == 3:
                 wk, wn = m.where(w)
@@ -142,6 +160,7 @@ def run_op(m, s, box, x, y, o, par, name, w, k):
 
 
 def construct_task(p, cfg, rec):
+    DRV['cls'] = DRIVERS[cfg.get('driver', 'Buf')]
     kind = cfg['template']
     first = cfg['first']                       # the first operation is enumerated by the task list, the second is symbolic
     rec.update(['py4hw.base.Wire.__init__', 'py4hw.base.Logic.__init__', 'py4hw.base.Logic.appendWire', 'py4hw.base.Wire.setSource',
@@ -285,16 +304,16 @@ def hier_build(s, variant, skip):
         t = b.wire('t', 2)
         if variant == 'nested':
             def inner(b2):
-                drive(t, lambda: Buf(b2, 'bt', a, t))
+                drive(t, lambda: mkbuf(b2, 'bt', a, t))
             D.Box(b, 'in', {'a': a}, {'t': t}, inner)
         else:
-            drive(t, lambda: Buf(b, 'bt', a, t))
+            drive(t, lambda: mkbuf(b, 'bt', a, t))
         drive(m, lambda: Not(b, 'nm', t, m))
         drive(z, lambda: Constant(b, 'cz', 3, z))          # an output nobody reads
     D.Box(s, 'blk', {'a': a, 'u': u}, {'m': m, 'z': z}, body)   # input u is not used inside
     if variant == 'scope':
         Probe(s, 'probe', z)                                   # z is read only by a leaf that is not a primitive (no sink is registered)
-    drive(o, lambda: Buf(s, 'bo', m, o))                       # o is attached to no port when this is left out
+    drive(o, lambda: mkbuf(s, 'bo', m, o))                       # o is attached to no port when this is left out
     return drivers
 
 
@@ -316,6 +335,7 @@ def all_logic(obj):
 def hier_task(p, cfg, rec):
     """single removed driver anywhere in a structural hierarchy, including wires nobody reads"""
     variant = cfg['variant']
+    DRV['cls'] = DRIVERS[cfg.get('driver', 'Buf')]
     rec.update(['py4hw.debug.checkIntegrity', 'py4hw.debug.checkPort'])
     with quiet():
         n = len(hier_build(py4hw.HWSystem(), variant, 0))
@@ -379,6 +399,9 @@ def tasks_for(tier):
                   {'template': 'flat', 'first': f}))
     for v in ('plain', 'nested', 'scope'):
         t.append(('integrity of a structural hierarchy (%s), one removed driver at a symbolic position' % v, hier_task, {'variant': v}))
+    for drv in list(DRIVERS)[1:]:
+        t.append(('construction API, template flat, one operation, drivers are %s' % drv, construct_task, {'template': 'flat', 'first': None, 'driver': drv}))
+        t.append(('integrity of a structural hierarchy (plain), drivers are %s' % drv, hier_task, {'variant': 'plain', 'driver': drv}))
     seen = set()
     for mod, kind in ((c07, 'comb'), (c08, 'comb'), (c09, 'seq')):
         for name, cfg in mod.cfgs(tier):
